@@ -5,9 +5,13 @@ import VivModel.Model.Results
   cfgexcl <name> <cats>                       configuration stratification.excluded_categories
   default <names>                             configuration stratification.default
   strat <name> <cats> <codeExcl|none> <edges|none>
-  obs add <name> <phase> <additional> <excluded> [nocb]  |  obs cat <name> <phase> [nocb]   (nocb: required callable missing)
+  obs add <name> <phase> <additional> <excluded> <filter> [nocb]  |  obs cat <name> <phase> <filter> [nocb]
+                                              (filter: a token standing for the bytes of pop_filter; nocb: required callable missing)
   setup                                       on_post_setup
   ev <phase> <time> <inEvent bits> <raw rows> <name:toObserve:pass bits:vals|payloads>*
+                                              an exception ends the run (`stopped` afterwards)
+  evc <phase> <time> <inEvent bits> <raw rows> <-|prepare|mapper> <name:toObserve:pass bits:vals|payloads:fault>*
+                                              the caller catches the exception and carries on; fault: - f(ilter) t(o_observe) g(ather)
   get <name>   |   names <name>
 -/
 open Viv Viv.Proto Viv.Results
@@ -35,23 +39,37 @@ def rawFor (ss : List Strat) (toks : List String) : Option (List String) :=
     | none => some t
     | some es => if t = nanTok then some nanTok else (t.toInt?).map (binLabel es s.labels)
 
+def fault? : String → Option Fault
+  | "-" => some .none | "f" => some .filter | "t" => some .toObserve | "g" => some .gather | _ => none
+
+def parseObsF (c : Ctx) (n : Nat) (name t p v : String) (f : Fault) : Option ObsInput :=
+  match c.obs.find? (fun o => o.name = name), bool? t, bits p with
+  | some o, some t, some p =>
+    if p.length != n then none else
+    match o.kind with
+    | .adding =>
+      match intList v with
+      | some vs => if vs.length = n then some ⟨name, t, p, vs, [], f⟩ else none
+      | none => none
+    | .concat =>
+      match (if n = 0 then some [] else intLists v) with
+      | some pls => if pls.length = n then some ⟨name, t, p, [], pls, f⟩ else none
+      | none => none
+  | _, _, _ => none
+
 def parseObs (c : Ctx) (n : Nat) (tok : String) : Option ObsInput :=
   match tok.splitOn ":" with
-  | [name, t, p, v] =>
-    match c.obs.find? (fun o => o.name = name), bool? t, bits p with
-    | some o, some t, some p =>
-      if p.length != n then none else
-      match o.kind with
-      | .adding =>
-        match intList v with
-        | some vs => if vs.length = n then some ⟨name, t, p, vs, []⟩ else none
-        | none => none
-      | .concat =>
-        match (if n = 0 then some [] else intLists v) with
-        | some pls => if pls.length = n then some ⟨name, t, p, [], pls⟩ else none
-        | none => none
-    | _, _, _ => none
+  | [name, t, p, v] => parseObsF c n name t p v .none
   | _ => none
+
+def parseObsC (c : Ctx) (n : Nat) (tok : String) : Option ObsInput :=
+  match tok.splitOn ":" with
+  | [name, t, p, v, f] => (fault? f).bind (parseObsF c n name t p v)
+  | _ => none
+
+def eventFault? : String → Option EventFault
+  | "-" => some {} | "prepare" => some { prepare := true } | "mapper" => some { mapper := true }
+  | "prepare,mapper" => some { prepare := true, mapper := true } | _ => none
 
 def step (s : St) : List String → St × String
   | ["cfgexcl", name, cats] =>
@@ -66,20 +84,20 @@ def step (s : St) : List String → St × String
       match addStratification s.ctx.cfgExcl s.ctx.strats name (strList cats) codeExcl bins with
       | .ok ss => ({ s with ctx := { s.ctx with strats := ss } }, "ok")
       | .error e => (s, "err " ++ e.name)
-  | ["obs", "add", name, phase, add, exc] =>
-    match registerObservation s.ctx name phase .adding (strList add) (strList exc) with
+  | ["obs", "add", name, phase, add, exc, flt] =>
+    match registerObservation s.ctx name phase .adding (strList add) (strList exc) true flt with
     | .ok c => ({ s with ctx := c }, "ok")
     | .error e => (s, "err " ++ e.name)
-  | ["obs", "add", name, phase, add, exc, "nocb"] =>
-    match registerObservation s.ctx name phase .adding (strList add) (strList exc) false with
+  | ["obs", "add", name, phase, add, exc, flt, "nocb"] =>
+    match registerObservation s.ctx name phase .adding (strList add) (strList exc) false flt with
     | .ok c => ({ s with ctx := c }, "ok")
     | .error e => (s, "err " ++ e.name)
-  | ["obs", "cat", name, phase, "nocb"] =>
-    match registerObservation s.ctx name phase .concat [] [] false with
+  | ["obs", "cat", name, phase, flt, "nocb"] =>
+    match registerObservation s.ctx name phase .concat [] [] false flt with
     | .ok c => ({ s with ctx := c }, "ok")
     | .error e => (s, "err " ++ e.name)
-  | ["obs", "cat", name, phase] =>
-    match registerObservation s.ctx name phase .concat [] [] with
+  | ["obs", "cat", name, phase, flt] =>
+    match registerObservation s.ctx name phase .concat [] [] true flt with
     | .ok c => ({ s with ctx := c }, "ok")
     | .error e => (s, "err " ++ e.name)
   | ["setup"] =>
@@ -104,6 +122,23 @@ def step (s : St) : List String → St × String
         | .error e => ({ s with stopped := true }, "err " ++ e.name)
       | _, _ => (s, "bad-op")
     | _, _ => (s, "bad-op")
+  | "evc" :: phase :: time :: inev :: raws :: ef :: obsToks =>
+    if !s.ready then (s, "bad-op") else
+    match time.toInt?, bits inev, eventFault? ef with
+    | some time, some inev, some ef =>
+      let n := inev.length
+      let rawToks : List (List String) := if s.ctx.strats.isEmpty then List.replicate n [] else strLists raws
+      if rawToks.length != n then (s, "bad-op") else
+      match rawToks.mapM (rawFor s.ctx.strats), obsToks.mapM (parseObsC s.ctx n) with
+      | some raws, some inputs =>
+        let wanted := (s.ctx.obs.filter (fun o => o.phase = phase)).map (·.name)
+        if wanted.any (fun w => !(inputs.any (fun i => i.name = w))) then (s, "bad-op") else
+        let rows := (inev.zip raws).map fun (b, r) => (⟨b, r⟩ : RawRow)
+        match gatherCaught s.ctx phase time rows inputs ef with
+        | (c, none) => ({ s with ctx := c }, "ok")
+        | (c, some e) => ({ s with ctx := c }, "err " ++ e.name)
+      | _, _ => (s, "bad-op")
+    | _, _, _ => (s, "bad-op")
   | ["get", name] =>
     match getAssoc name s.ctx.adding, getAssoc name s.ctx.concat with
     | some t, _ => (s, "ok " ++ showTable t)
